@@ -521,8 +521,8 @@ MUTANTS = [
          old="    start, stop, step = s.indices(sequence_length)\n    return max(0, (stop - start + (step - (1 if step > 0 else -1))) // step)",
          new="    return len(range(*s.indices(sequence_length)))"),
     dict(id="table-setitem-stale-map", module="table",
-         old="			# Look up by name (map refreshed if a column was renamed)\n			column_map = self._current_column_map()",
-         new="			# Look up by name\n			column_map = self._column_map", rules=["h.fresh-map"]),
+         old="			if idx is None:\n				column_map = self._current_column_map()\n				idx = column_map.get(col_spec) or",
+         new="			if idx is None:\n				column_map = self._column_map\n				idx = column_map.get(col_spec) or", rules=["h.fresh-map"]),
     dict(id="promote-before-index-checks", module=_V,
          old="		n = len(self)\n		underlying = self._underlying  # local bind",
          new="		n = len(self)\n		if isinstance(value, float) and self._dtype is not None and self._dtype.kind is int:\n			self._promote(float)\n		underlying = self._underlying  # local bind",
